@@ -34,6 +34,24 @@ pub fn contract_add_assign<C: Ctx>(cx: &mut C) {
     vob!(cx, "C04.add_assign.size_flag_sticky", a.is_size_constraint == (s1 || s2));
 }
 
+/// C04 / C06 — `PerVisibleRangeConstraints::min::<I>()` / `max::<I>()`, the accessors through which every consumer
+/// (format_range_annotations, constraints_and_type_name -> int_type_token, fixed_size) reads the folded bounds, in the two
+/// instantiations the generator uses (I = i128 and I = usize).  For every stored bound: the accessor returns exactly that
+/// bound when it is representable in I and None otherwise — in particular a finite bound is never read back as "no bound"
+/// by the i128 instantiation (the one the emitted annotation and the integer width are computed from).
+pub fn contract_range_accessors<C: Ctx>(cx: &mut C) {
+    let (min, max) = (any_opt_i128(cx), any_opt_i128(cx));
+    let c = PerVisibleRangeConstraints { min, max, extensible: cx.any_bool(), is_size_constraint: cx.any_bool() };
+    vcover!(cx, "C04.range_accessors.cover_above_i64", matches!(max, Some(m) if m > i64::MAX as i128));
+    vcover!(cx, "C04.range_accessors.cover_below_i64", matches!(min, Some(m) if m < i64::MIN as i128));
+    vob!(cx, "C04.range_accessors.lower_bound_read_back_unchanged", c.min::<i128>() == min);
+    vob!(cx, "C04.range_accessors.upper_bound_read_back_unchanged", c.max::<i128>() == max);
+    let as_usize = |o: Option<i128>| match o { Some(v) if v >= 0 && v <= usize::MAX as i128 => Some(v as usize), _ => None };
+    vob!(cx, "C04.range_accessors.lower_bound_as_usize_when_representable", c.min::<usize>() == as_usize(min));
+    vob!(cx, "C04.range_accessors.upper_bound_as_usize_when_representable", c.max::<usize>() == as_usize(max));
+    vob!(cx, "C04.range_accessors.flags_read_back_unchanged", c.is_extensible() == c.extensible && c.is_size_constraint() == c.is_size_constraint);
+}
+
 /// accessors for the native replay of the Verus unit C04_bounds (the functions are private to this file)
 pub fn hook_intersect_single_and_range(value: &ASN1Value, min: Option<&ASN1Value>, max: Option<&ASN1Value>, x1: bool, x2: bool) -> Result<Option<SubtypeElements>, GrammarError> {
     intersect_single_and_range(value, min, max, x1, x2, None, true)
@@ -68,4 +86,5 @@ pub fn hook_union_optional(first: Option<&ASN1Value>, second: Option<&ASN1Value>
 mod kani_harness {
     use super::*;
     #[kani::proof] fn k_c04_add_assign() { contract_add_assign(&mut KaniCtx) }
+    #[kani::proof] fn k_c04_range_accessors() { contract_range_accessors(&mut KaniCtx) }
 }
